@@ -32,6 +32,10 @@ TEXP = "ast2logic.t_expression.translate_expression"
 
 
 def run(ctx: Ctx):
+    # functions defined inline are normalised by the same rewriter, sharing its environment with the caller
+    from . import c01 as _c01
+
+    ctx.section(_c01.check_const_table, ctx)
     an = fx.effects(ctx)
     memo.check_memo_keys(ctx, ('ast2logic.', 'qlassfun.QlassF.to_logicfun', 'qlassfun.QlassF.from_function', 'qlassfun.qlassf', 'boolopt.', 'algorithms.qalgorithm'))
     repo = ctx.repo
